@@ -39,3 +39,38 @@ Example fnode_example :
   run_fnode [2; 1;  1;10; 1;11; 1;12; 1;13; 2;0; 2;0; 2;0; 2;0] =
   [1;1; 1;2; 1;2; 1;2; 0;3; 0;4; 0;4; 0;4; -7; 0; 0; 10; 11; 12; 13].
 Proof. vm_compute. reflexivity. Qed.
+
+(* ---- a limited REJECTING node fed by a buffering sender: the push/pull edge protocol (PullModel) ----
+   For every concurrency limit >= 1 and every sequence of operations — puts into the sender, bodies finishing, the sender's
+   register_predecessor arriving (at ANY later moment, in particular after the last running body has finished), forwarder steps:
+   the limit holds; the messages started followed by the messages still in the sender are exactly the messages put, in order
+   (each started at most once, none dropped, FIFO); forwarder_busy is set exactly while a forwarder task exists; and a message waits in
+   the sender only while somebody is still bound to act on it: the sender's registration is under way, a body is running (it pulls when
+   it finishes) or a forwarder task exists.  Hence when the graph is idle (nothing of the three) every message put has been started:
+   wait_for_all means idle. *)
+From OTV Require Import PullModel PullProofs.
+Theorem rejected_message_is_not_stranded : forall maxc ops, 1 <= maxc ->
+  let n := prun (pinit maxc) ops in
+  0 <= p_conc n <= maxc /\
+  p_started n ++ p_items n = p_put n /\
+  p_busy n = p_fwd n /\
+  (p_items n <> [] -> p_rej n = true \/ 0 < p_conc n \/ p_fwd n = true) /\
+  (p_rej n = false -> p_conc n = 0 -> p_fwd n = false -> p_items n = [] /\ p_started n = p_put n).
+Proof.
+  intros maxc ops Hm n.
+  assert (HI : PInv n) by (apply prun_inv; apply pinit_inv; auto).
+  destruct HI as (H1 & H2 & H3 & H4 & H5 & H6 & H7).
+  assert (Hmax' : p_max n = maxc).
+  { unfold n. generalize (pinit maxc) (eq_refl : p_max (pinit maxc) = maxc). clear. induction ops as [|[op v] tl IH]; intros n0 E; cbn; auto.
+    apply IH. rewrite pstep_max. auto. }
+  rewrite Hmax' in *.
+  split; [lia|]. split; [auto|]. split; [auto|]. split.
+  - intros Hne. destruct (H4 Hne) as [X|X]; [left; exact X|]. destruct (H5 X) as [Y|Y]; [right; left; exact Y|right; right; exact Y].
+  - intros Hr Hc Hf. assert (E : p_items n = []).
+    { destruct (p_items n) eqn:Ei; auto. exfalso. destruct (H4 ltac:(congruence)) as [X|X]; [congruence|]. destruct (H5 X); [lia|congruence]. }
+    split; auto. rewrite E, app_nil_r in H7. auto.
+Qed.
+Print Assumptions rejected_message_is_not_stranded.
+
+Example pull_example : run_pull [1; 1;10; 1;11; 1;12; 2;0; 2;0; 2;0] = [1;0;0;0;1; 1;1;1;0;1; 1;2;1;0;1; 1;1;1;0;2; 1;0;1;0;3; 0;0;0;0;3; -7; 10;11;12].
+Proof. vm_compute. reflexivity. Qed.
